@@ -9,6 +9,7 @@ from pathlib import Path
 
 change_dir = Path(sys.argv[1]); prop = sys.argv[2]; name = sys.argv[3]
 no_suite = "--no-suite" in sys.argv
+recheck = "--recheck" in sys.argv and (change_dir / "verification.json").exists()
 wt = Path("/tmp/vwt") / name
 wt.parent.mkdir(exist_ok=True)
 if wt.exists():
@@ -17,6 +18,9 @@ subprocess.run(["git", "-C", "/repo", "worktree", "add", "-q", "--detach", str(w
 env = dict(os.environ, PYTHONPATH=str(wt / "src"), PATH="/venv/bin:" + os.environ["PATH"])
 env.pop("VERIF_REPO", None)
 out = {"property": prop, "name": name}
+if recheck:
+    out = json.loads((change_dir / "verification.json").read_text())
+    no_suite = True
 try:
     patch = change_dir / "patch.diff"
     r = subprocess.run(["git", "-C", str(wt), "apply", "--whitespace=nowarn", str(patch)], capture_output=True, text=True)
@@ -32,7 +36,8 @@ try:
             cmd = ["/venv/bin/python", str(demo)]
         p = subprocess.run(cmd, cwd=str(wt), env=env, capture_output=True, text=True, timeout=1500)
         return p.returncode, (p.stdout + p.stderr)[-600:]
-    out["demo_with_patch_rc"], out["demo_with_patch_tail"] = run_demo()
+    if not recheck:
+        out["demo_with_patch_rc"], out["demo_with_patch_tail"] = run_demo()
     # compile check
     c = subprocess.run(["/venv/bin/python", "-m", "compileall", "-q", str(wt / "src")], capture_output=True, text=True)
     out["compiles"] = c.returncode == 0
@@ -70,7 +75,8 @@ try:
     out["caught_by_own_property"] = prop in fired
     subprocess.run(["git", "-C", str(wt), "checkout", "--", "."], check=True)
     subprocess.run(["git", "-C", str(wt), "clean", "-fdq"], check=True)
-    out["demo_without_patch_rc"], out["demo_without_patch_tail"] = run_demo()
+    if not recheck:
+        out["demo_without_patch_rc"], out["demo_without_patch_tail"] = run_demo()
 finally:
     subprocess.run(["git", "-C", "/repo", "worktree", "remove", "--force", str(wt)])
     (change_dir / "verification.json").write_text(json.dumps(out, indent=1))
